@@ -26,6 +26,15 @@ def assignZ (s : DStr) (p : List Nat) : Option DStr := (s.erase 0 none).bind fun
 def assignPtr (s : DStr) (p : List Nat) (count : Nat) : Option DStr :=
   if count > p.length then none else (s.erase 0 none).bind fun s1 => s1.append (p.take count)
 
+/-- constructor `XalanDOMString(theString, theManager, theCount)` with an explicit count, after the repair
+`proposed/C20-stringpool-leading-nul.diff`: the first `count` units, whatever they are -/
+def ofPtr (p : List Nat) (count : Nat) : Option DStr :=
+  if count > p.length then none else if count = 0 then some {} else ({} : DStr).append (p.take count)
+
+/-- … **as written**: a buffer that starts with U+0000 gives the empty string -/
+def ofPtrAsWritten (p : List Nat) (count : Nat) : Option DStr :=
+  if p.head? = some 0 then some {} else ofPtr p count
+
 /-- `insert(thePosition, const XalanDOMChar*)` = `insert(pos, theString, length(theString))` -/
 def insertZ (s : DStr) (pos : Nat) (p : List Nat) : Option DStr := s.insert pos (zstr p)
 
